@@ -47,6 +47,9 @@ pub enum Res {
         /// only when fully consumed: `next()` after the announced items returned `None`
         end_ok: bool,
         fully_consumed: bool,
+        /// items obtained from the rest of a partly consumed chunk through other `Iterator` methods
+        /// (`nth`, `last`, `skip`, `step_by`): (offset within the chunk, item)
+        tail: Vec<(usize, ItemRec)>,
     },
     Len(Option<usize>),
     Has(HasRec),
